@@ -1,5 +1,11 @@
 pub fn time_millis() -> i64 {
     let time: chrono::DateTime<chrono::Utc> = chrono::Utc::now();
+    #[cfg(feature = "verif")]
+    #[allow(clippy::needless_return)]
+    {
+        return time.timestamp_millis() + crate::verif::clock_offset();
+    }
+    #[allow(unreachable_code)]
     time.timestamp_millis()
 }
 
